@@ -629,7 +629,9 @@ Proof.
     destruct (c_in (wc w cid)); [hro; apply O_wsetc_same; auto|].
     destruct (n <? _); hro; apply O_wsetc_same; auto. }
   chain_next.
-  { hro; apply O_wsetc_same; auto. }
+  { (* writeto *)
+    destruct (_ || _); [hro; apply O_wsetc_same; auto|].
+    destruct (_ <? _); hro; apply O_wsetc_same; auto. }
   chain_next.
   { hro. exact HI. }
   chain_next.
